@@ -4,7 +4,9 @@ import (
 	"flag"
 	"fmt"
 	"os"
+	"strconv"
 	"strings"
+	"time"
 )
 
 func main() {
@@ -38,6 +40,8 @@ func cmdRun(args []string) {
 	ua := fs.Bool("unwind-assume", false, "prune instead of fail at unwind limit")
 	merge := fs.String("merge", "", "comma separated functions to summarise")
 	lazy := fs.Bool("lazy", false, "lazy feasibility")
+	deadline := fs.Duration("deadline", 0, "stop exploring after this long")
+	params := fs.String("params", "", "comma separated name=value harness parameters (integers; name:=value for strings)")
 	fs.Parse(args)
 	ld, err := loadProgram([]string{*pkg, zlintMod + "/zzverif"}, nil)
 	if err != nil {
@@ -49,6 +53,17 @@ func cmdRun(args []string) {
 	cfg := defaultConfig()
 	cfg.Solver, cfg.Unwind, cfg.ListBound, cfg.ByteBound, cfg.UnwindAssume = *solver, *unwind, *list, *bytesB, *ua
 	cfg.LazyFeas = *lazy
+	if *deadline > 0 {
+		cfg.Deadline = time.Now().Add(*deadline)
+	}
+	for _, kv := range strings.Split(*params, ",") {
+		if i := strings.Index(kv, ":="); i > 0 {
+			cfg.StrParams[kv[:i]] = kv[i+2:]
+		} else if i := strings.Index(kv, "="); i > 0 {
+			n, _ := strconv.Atoi(kv[i+1:])
+			cfg.Bounds["param:"+kv[:i]] = n
+		}
+	}
 	for _, m := range strings.Split(*merge, ",") {
 		if m != "" {
 			cfg.Merge[m] = true
